@@ -113,6 +113,12 @@ def string_fix_cases(nbytes: int, rng: random.Random):
     for pad_name, pad in (("nul", 0), ("ff", 0xFF), ("at", 0x40), ("space", 0x20)):
         n = rng.randint(0, max(0, nbytes - 1))
         out.append((f"str_pad_{pad_name}", body(n).encode() + bytes([pad]) * (nbytes - n)))
+    # text, then blanks, then the terminator padding (blank-padded text in a NUL/@/ff padded field)
+    for pad_name, pad in (("nul", 0), ("at", 0x40), ("ff", 0xFF)):
+        if nbytes >= 4:
+            n = rng.randint(1, nbytes - 3)
+            k = rng.randint(1, nbytes - n - 1)
+            out.append((f"str_blanks_then_{pad_name}", body(n).encode() + b" " * k + bytes([pad]) * (nbytes - n - k)))
     out.append(("str_empty_ff", b"\xff" * nbytes))
     out.append(("str_empty_nul", b"\x00" * nbytes))
     return out
@@ -126,7 +132,7 @@ def is_generator_string(raw_bytes: bytes) -> bool:
     (00, ff, '@' or space) up to the end.  Only such content has an unambiguous expected text."""
     n = len(raw_bytes)
     i = 0
-    while i < n and raw_bytes[i] in _BODY:
+    while i < n and raw_bytes[i] in _BODY:          # body (may end in blanks)
         i += 1
     tail = raw_bytes[i:]
     if not tail:
